@@ -62,7 +62,7 @@ def getOptNat (j : Json) (k : String) : R (Option Nat) :=
   | v => do pure (some (← asNat v))
 
 section ops
-variable [Add α] [Sub α] [Mul α] [Div α] [Zero α] [One α] [BEq α] [Max α] [NatCast α]
+variable [Add α] [Sub α] [Mul α] [Div α] [Zero α] [One α] [BEq α] [Max α] [LE α] [DecidableLE α] [NatCast α]
 
 def packOp (c : Codec α) (lr : Bool) (j : Json) : R Json := do
   let d ← getNat j "d"
@@ -158,7 +158,7 @@ def lowRankRootOp (c : Codec α) (j : Json) : R Json := do
       return obj [("P", matJson c (lowRankRoot h pw neg ps ridge (vecOf e d) (matOf U d d)))]
     else return obj [("err", Json.str "inadmissible")]
 
-def typed (f : {α : Type} → [Add α] → [Sub α] → [Mul α] → [Div α] → [Zero α] → [One α] → [BEq α] → [Max α] →
+def typed (f : {α : Type} → [Add α] → [Sub α] → [Mul α] → [Div α] → [Zero α] → [One α] → [BEq α] → [Max α] → [LE α] → [DecidableLE α] →
     [NatCast α] → Codec α → Json → R Json) (j : Json) : R Json := do
   let ty ← getStr j "ty"
   if ty == "rat" then f ratC j
